@@ -343,6 +343,23 @@ fn concrete_stacks(rep: &mut Report) {
     all_stack_pairs!(rep; map, scale_amp, offset_amp, clip_amp, delay, inspect, scale_amp_per_channel, offset_amp_per_channel, delay0);
 }
 
+// ------------------------------------------------------------------ copies
+/// clone() / clone_from() of stateful adaptors mid-stream (a delay part-way through its silence)
+fn clone_conformance(rep: &mut Report, seed: u64) {
+    fn g(i: u64) -> [i16; 2] {
+        [(i % 200) as i16 * 64 - 3000, 17 - (i % 50) as i16 * 32]
+    }
+    let mut rng = Rng::derive(seed, &[42]);
+    let mut n = 0;
+    let mk = |v: u64| USource::infinite(g, Probe::new()).delay(3 + 2 * v as usize);
+    let step = |s: &mut dasp_signal::Delay<USource<[i16; 2]>>, _i: u64| (s.next(), s.is_exhausted());
+    n += checks::cloneconf::check_clone_state("delay", "stack=0;clone=1", mk, step, rep, &mut rng, 24, 9, 8);
+    let mk2 = |v: u64| USource::generated(g, 12, Probe::new()).delay(2).scale_amp(0.5f32).delay(1 + v as usize);
+    n += checks::cloneconf::check_clone_state("delay_scale_delay", "stack=0;clone=1", mk2, |s, _i| (s.next(), s.is_exhausted()), rep, &mut rng, 24, 9, 12);
+    rep.eval(n);
+    rep.hit_n("clone_conformance_scripts", n);
+}
+
 // ------------------------------------------------------------------ long runs past 2^32 frames
 /// One adaptor value driven for 2^32 + 2^12 frames: any per-call counter kept in 32 bits wraps
 /// inside the run, any 64-bit one does not. Source frame n is `((n % 4093) + 1) / 8192` (exact in
@@ -443,6 +460,8 @@ fn main() {
         rep.oblige("adaptors_driven_past_2_pow_32_frames", 11);
         long_runs(&mut rep, cli.threads, (1u64 << 32) + (1 << 12));
     }
+    rep.oblige("clone_conformance_scripts", 1);
+    clone_conformance(&mut rep, cli.seed);
     rep.oblige("concrete_adaptor_pairs_rewrapped_mid_stream", 243);
     concrete_stacks(&mut rep);
     rep.oblige("by_ref_resumes", 1);
